@@ -48,6 +48,9 @@ def stress_docs(rnd, n):
              "```{line-block}\nfirst\n  indented\n    deeper\nback\n```",
              # several raw nodes (a hard break makes two)
              "line a\\\nline b and <b>inline</b>\n\n<div>block</div>", "> ---\n\n~~s~~",
+             # a warning raised inside nested inline markup of a directive's title / caption (state.inline_text)
+             "```{admonition} Use the *new {nosuchrole}`Ctrl+K` shortcut*\nbody\n```", "```{table} Caption **{nosuchrole}`x`** end\n| a |\n|---|\n| 1 |\n```",
+             "```{rubric} R *{nosuchrole}`y`*\n```",
              # a footnote reference inside an image's alt text (rendered as text only: nothing may be registered for it)
              "![Rate[^f2] and [^f3]](rates.png)", "![a $m$ {sub}`2` b[^f1]](i.png)\n\n[^f1]: again",
              # tables built by the mock state machine: empty fields, short rows, an empty corner
